@@ -5,7 +5,7 @@
 use crate::util::Rng;
 use serde_json::{json, Value};
 
-pub const PACKAGES: [&str; 4] = ["com.palantir.verif", "com.palantir.verif.sub", "com.palantir.verif.sub.deep", "org.other.api"];
+pub const PACKAGES: [&str; 7] = ["com.palantir.verif", "com.palantir.verif.sub", "com.palantir.verif.sub.deep", "org.other.api", "com.palantir.verif.billing.common", "com.palantir.verif.orders.common", "com.palantir.other.sub"];
 
 /// names that are Rust keywords or otherwise awkward once converted to snake_case / CamelCase
 pub const FIELD_NAMES: [&str; 40] = [
@@ -52,7 +52,14 @@ const KEY_PRIMS: [&str; 9] = ["STRING", "INTEGER", "SAFELONG", "DOUBLE", "BOOLEA
 
 impl<'a> G<'a> {
     fn prim(&mut self) -> Value {
-        json!({"type": "primitive", "primitive": PRIMS[self.rng.below(PRIMS.len())]})
+        let p = json!({"type": "primitive", "primitive": PRIMS[self.rng.below(PRIMS.len())]});
+        if self.rng.chance(1, 8) {
+            // an imported (external) type: generated code uses its fallback
+            let n = self.rng.below(3);
+            json!({"type": "external", "external": {"externalReference": {"name": format!("Ext{}", n), "package": "java.lang"}, "fallback": p}})
+        } else {
+            p
+        }
     }
     fn reference(&self, i: usize) -> Value {
         json!({"type": "reference", "reference": tname(i, PACKAGES[self.pkgs[i]])})
